@@ -174,7 +174,7 @@ var metas = map[string]*checkMeta{
 			Quick: tierCfg{Count: 8000, Budget: 60 * time.Second},
 			Thor:  tierCfg{Count: 250000, Budget: 20 * time.Minute}}},
 		Rule: "plan = frame sequence emitted by the stub peer: either up to 4 uniformly random frames over the abstract alphabet (opcode {0,1,2,8,9,10,3,11,15} x FIN x RSV x right/wrong mask x length {exact; declared 2^31, 2^63-1, 2^63, 2^64-1, 2^64-len} x close code/reason class), or a valid conversation (fragmented messages, pings/pongs in between, close) with one injected oddity; x role (client/server under test) x read limit drawn relative to frame/message sizes x cut at an arbitrary byte offset x read segmentation down to 1 byte x read buffer size x read API. Non-trivial = every plan (each has at least one frame). Distinct = distinct plan bodies.",
-		Components: map[string]string{"websocket.Conn reader (advanceFrame, NextReader, ReadMessage, default ping/close handlers, SetReadLimit)": "real, established through the real Dial/Upgrade handshake", "peer": "reference frame encoder (ref/ws.go, stub)", "model": "conformant RFC 6455 receiver as a small state machine with unbounded-integer length accounting (stub)", "transport": "sim duplex: segmentation, cut"},
+		Components: map[string]string{"websocket.Conn reader (advanceFrame, NextReader, ReadMessage, default ping/close handlers, SetReadLimit)": "real, established through the real Dial/Upgrade handshake", "peer": "reference frame encoder (ref/ws.go, stub)", "model": "conformant RFC 6455 receiver as a small state machine with unbounded-integer length accounting (stub)", "transport": "sim duplex: segmentation, cut", "clock": "testing/synctest bubble: the handlers' WriteControl deadlines (now+1s) read the fake clock"},
 		Assumptions: append([]string{"not demanded (unspecified by the statement): the status code sent on a limit breach, a 1-byte Close body, close codes 1012-1014, text payload UTF-8 validation, non-minimal length encodings (not generated)", "a violation in a frame whose header is cut short may end in the protocol error or in an EOF error"}, stdAssume...),
 		Faults:      []string{"fault_cut", "short_reads", "one_byte_reads"},
 		Probes:      []string{"expected_terminal_proto", "expected_terminal_close", "expected_terminal_limit", "expected_terminal_eof", "close_1002_checked", "limit_breaches_checked", "pongs_checked", "runs_with_read_limit"},
